@@ -15,6 +15,8 @@
 
 use crate::trait_group::c_void;
 use std::prelude::v1::*;
+#[cfg(kani)]
+use core::{assert, unreachable};
 
 // C style callbacks that are needed so that C code can easily use callback like functions
 #[repr(transparent)]
@@ -157,4 +159,9 @@ impl<T, F: FnMut(T) -> bool> Callbackable<T> for F {
     fn call(&mut self, data: T) -> bool {
         (*self)(data)
     }
+}
+
+#[cfg(kani)]
+mod verif_kani {
+    include!(concat!(env!("H33P_CGLUE_VERIF_DIR"), "/callback.rs"));
 }
